@@ -76,7 +76,9 @@ check("C04", "other",
       "symbolic line: matches ⇔ whole line in L(e) for all expressions over {a,b,|} up to length 3/4 plus curated ones; "
       "cram glob: glob→regex translation ⇔ glob semantics, and CramGlobRule::make + matches ⇔ glob semantics counted in characters on lines "
       "with characters of every UTF-8 width (the options the rule builds its regex with are modelled). Expressions over {a,|,^,$,\\} cover "
-      "user-written anchors. The wildmatch engine (kind `glob`) and the regex engine are not encoded.",
+      "user-written anchors. glob: GlobRule::make + matches ⇔ the engine's verdict on the line without its newline, with wildmatch replaced by the reference glob "
+      "semantics (patterns <= 3/4 over {a,b,*,?}, lines <= 3 characters incl. multi-byte; validated against the real rule on concrete samples). The wildmatch "
+      "and regex engines themselves are not encoded.",
       E2_NOTE + " Additionally trusts lib/miniregex.py (validated against the regex crate on concrete samples each run).",
       E2_TECH, "E2", "DESIGN.md §3 C04")
 
@@ -159,7 +161,9 @@ check("C09", "other",
       "max_backtick_size >= every line-leading backtick run. Seven collision classes are genuine defects recorded in known_findings.json. "
       "A test case that failed on its exit code (recorded code symbolic in 0..255, written code absent or any other; 0..1/2 lines on stdout and on stderr; every "
       "output_stream setting) is rewritten to a block that parses back to the same command, the recorded exit code and one matching expectation per line of "
-      "the stream that validate compares; replayed through the real update generators on a real document. Longer outputs and document-level rendering are outside.",
+      "the stream that validate compares; replayed through the real update generators on a real document. Shell expressions of 2–3/4 lines (empty lines, lines "
+      "starting or ending in a blank, a trailing empty line) are written as `$ ` / `> ` lines that parse back to exactly that expression. Longer outputs and "
+      "document-level rendering are outside.",
       E2_NOTE + " Additionally trusts lib/miniregex.py.", E2_TECH, "E2", "DESIGN.md §3 C09")
 
 check("C17", "other",
@@ -188,7 +192,8 @@ check("C10", "other",
       "not crash and returns the document unchanged line for line — front-matter, prose, foreign blocks, comments, commands, expectation lines, text "
       "after the last test; an unterminated scrut block only gains its closing fence (idempotence follows). With any subset of tests failing only the "
       "failing blocks change (fence language, comments, command, exit code kept, new output written) and the updated document parses with the real "
-      "parser to the same commands. Multi-line new output, CRLF documents and Cram documents are not claimed.",
+      "parser to the same commands. Commands with an empty continuation line, a continuation line ending in a blank, or no text at all are among the "
+      "templates (the defects they exposed are fixed in af1291e). Multi-line new output, CRLF documents and Cram documents are not claimed.",
       E2_NOTE + " Additionally trusts lib/miniregex.py.", E2_TECH, "E2", "DESIGN.md §3 C10")
 
 check("C20", "other",
@@ -199,7 +204,9 @@ check("C20", "other",
       "per test case that is not detached and at most one per test case, in order, of the prescribed kind (validated / timed out / "
       "skipped); a skipped document never fails the run; after a time-out the rest is skipped; run returns Err(ValidationFailed) iff "
       "something failed or timed out, another error iff a document could not be executed; main maps these to 50 / 1 / 0. Executor calls "
-      "of <= 3/4 test cases (5 with a reduced alphabet), every result shape; 2 documents with representative results. Witnesses are replayed "
+      "of <= 3/4 test cases (5 with a reduced alphabet), every result shape — including a document whose turn ends before its executor is called (a prepend "
+      "document that does not parse, a work directory or executor that cannot be set up: the run ends with a non-validation error and nothing more is run); "
+      "2 documents with representative results. Witnesses are replayed "
       "through the real binary on real documents. The real FileParser::find_and_parse over a file-system stub yields one parsed document per named "
       "file and per matching file below a named directory (depth first), in the order given (every ordered selection of 1..3 of 4 paths; a "
       "two-level directory tree named in 4 ways), and fails when one of those documents cannot be read (shallow, deep, top level; exit status 1 "
@@ -214,7 +221,8 @@ check("C18", "other",
       "place of tempfile / std::fs (creation, into_path, exists and — through the MIR's executed drop statements — removal are tracked per "
       "path): at every executor call the work and temporary directory exist and the work directory is not shared with another document "
       "(or is the given --work-directory); every test case carries TESTDIR, TESTFILE, TESTSHELL, TMPDIR and the documented locale / terminal "
-      "variables with the right values; when run returns (success, validation failure, time-out, skip, execution error) nothing scrut "
+      "variables with the right values; when run returns (success, validation failure, time-out, skip, execution error, a prepend document that does not "
+      "parse, no executor) nothing scrut "
       "created is left unless --keep-temporary-directories, a given --work-directory stays and only the temporary directory inside it is "
       "gone. SCRUT_TEST=<path>:<line> per test case is decided on the MIR of StatefulExecutor::execute_all; that every variable of the test case — "
       "the documented empty ones (CDPATH, GREP_OPTIONS) included — reaches the process is decided on SubprocessRunner::run against a recording stub and "
